@@ -455,6 +455,15 @@ def observed_schedule(case, obs):
     return None, None
 
 
+def arg_indices(task):
+    """job indices inside one pool task, whatever the helper wrapped the argument tuples (d, index, kind) into"""
+    if isinstance(task, tuple) and len(task) == 3 and isinstance(task[0], str) and isinstance(task[1], int):
+        return [task[1]]
+    if isinstance(task, (tuple, list)):
+        return [i for t in task for i in arg_indices(t)]
+    return []
+
+
 def impl_calls(case, obs):
     """calls as (worker, index) in the order the model lists them, derived from the traces only"""
     per_worker = obs["per_worker"]
@@ -469,7 +478,7 @@ def impl_calls(case, obs):
         out = []
         if case["variant"] == "pool":
             for i in sched["order"]:
-                out += [[sched["worker"][i], a[1]] for a in obs["rec"]["tasks"][i]]
+                out += [[sched["worker"][i], idx] for idx in arg_indices(obs["rec"]["tasks"][i])]
         else:
             out = [[sched["worker"][i], i] for i in sched["order"]]
         # the traces must say the same (the stand-ins record the worker in the file names)
@@ -657,7 +666,9 @@ def run_plans(ctx, pairs):
 def plan_oracle(cpu, S, p):
     """the property on what the real helper handed to the pool: the pool accepts the chunk size and the
     batches contain every argument exactly once (given that the pool runs every batch exactly once)"""
-    flat = sorted(x for c in p["chunks"] for x in c)
+    def leaves(t):                        # the helper may wrap the arguments (here: the integers 0..S-1) into tuples of its own
+        return [x for u in t for x in leaves(u)] if isinstance(t, (tuple, list)) else [t]
+    flat = sorted(x for c in p["chunks"] for x in leaves(c))
     if p["chunksize"] is None or p["chunksize"] < 1:
         return "chunk size < 1: the pool rejects the call"
     if flat != list(range(S)):
